@@ -12,6 +12,9 @@ from harness import common, framegen, vecgen
 LEVEL = {"partial": ["pandas / pyarrow type mapping (to_numpy, null handling) is assumed and observed, not modelled",
                      "JSON cannot carry dates: the JSON round trip is checked with dtypes supplied for date/datetime columns"]}
 ASSUMPTIONS = ["pa.array(list) / pd.DataFrame(dict of lists) map None to null / NaN-NaT; json.dumps/loads are inverse on JSON values"]
+# objects with a history are also left grouped by an earlier group_by (harness/warm.py): none of the
+# operations of this property is documented as group-wise
+WARM_GROUPED = True
 RULE = ("frames with 1..6 rows and 1..4 columns over bool/int/float/str/date/datetime with arbitrary missing positions (incl. the first "
         "position and all-missing columns), ±inf, -0.0, 2**53+1, empty-looking and non-ASCII strings; the four round trips "
         "(ListOfDicts, JSON text, pandas, Arrow); checked: names/order, values, missing positions, dtype of bool/int/float/str columns "
